@@ -307,6 +307,12 @@ def domain(ctx, s, name, tier="quick", wide=False, env=None):
         enc = s[2] if k in ("pstring", "pascal") else s[1]
         ncp = s[-1]
         maxcp = 0x7F if enc == "ascii" else 0x10FFFF
+        if STRICT[0] and k == "pstring":
+            per = s[1] // max(1, ncp)            # bytes available per code point: keep the text inside the field
+            if enc.startswith("utf_16") and per < 4:
+                maxcp = 0xFFFF
+            if enc in ("utf8", "utf_8") and per < 4:
+                maxcp = {1: 0x7F, 2: 0x7FF, 3: 0xFFFF}.get(per, 0x7F)
         v = ctx.str(name, ncp, maxcp)
         if STRICT[0]:
             for ch in getattr(v, "items", [ord(c) for c in v] if isinstance(v, str) else []):
